@@ -1,0 +1,82 @@
+//go:build verif
+
+// Contracts for property C19 (matrix duplicate and exclude checks). Verified by govc.
+//
+// yeq and ysub are the specification: structural equality of raw YAML values and the "exclude
+// filter matches candidate" relation, written from the property statement (mappings match by
+// subset, sequences element-wise, scalars by equality, anything built from an expression matches).
+// The lemmas below DEFINE them (they are the trusted specification); every implementation must
+// return exactly their value.
+
+package actionlint
+
+//@ spec yeq(a: RawYAMLValue, b: RawYAMLValue): bool
+//@ spec ysub(v: RawYAMLValue, s: RawYAMLValue): bool
+//@ spec hasexpr(s: string): bool
+
+//@ lemma yeq_string: forall a: RawYAMLValue, b: RawYAMLValue :: istype(a, "*RawYAMLString") ==> (yeq(a, b) <==> (istype(b, "*RawYAMLString") && dyn(a, "*RawYAMLString").Value == dyn(b, "*RawYAMLString").Value))
+//@ lemma yeq_array: forall a: RawYAMLValue, b: RawYAMLValue :: istype(a, "*RawYAMLArray") ==> (yeq(a, b) <==> (istype(b, "*RawYAMLArray") && len(dyn(a, "*RawYAMLArray").Elems) == len(dyn(b, "*RawYAMLArray").Elems) && (forall j :: 0 <= j && j < len(dyn(a, "*RawYAMLArray").Elems) ==> yeq(dyn(a, "*RawYAMLArray").Elems[j], dyn(b, "*RawYAMLArray").Elems[j]))))
+//@ lemma yeq_object: forall a: RawYAMLValue, b: RawYAMLValue :: istype(a, "*RawYAMLObject") ==> (yeq(a, b) <==> (istype(b, "*RawYAMLObject") && (forall k: string :: dyn(a, "*RawYAMLObject").Props.has(k) <==> dyn(b, "*RawYAMLObject").Props.has(k)) && (forall k: string :: dyn(a, "*RawYAMLObject").Props.has(k) ==> yeq(dyn(a, "*RawYAMLObject").Props[k], dyn(b, "*RawYAMLObject").Props[k]))))
+
+//@ lemma ysub_expr: forall v: RawYAMLValue, s: RawYAMLValue :: istype(s, "*RawYAMLString") && hasexpr(dyn(s, "*RawYAMLString").Value) ==> ysub(v, s)
+//@ lemma ysub_string: forall v: RawYAMLValue, s: RawYAMLValue :: istype(v, "*RawYAMLString") && !(istype(s, "*RawYAMLString") && hasexpr(dyn(s, "*RawYAMLString").Value)) ==> (ysub(v, s) <==> (hasexpr(dyn(v, "*RawYAMLString").Value) || yeq(v, s)))
+//@ lemma ysub_array: forall v: RawYAMLValue, s: RawYAMLValue :: istype(v, "*RawYAMLArray") && !(istype(s, "*RawYAMLString") && hasexpr(dyn(s, "*RawYAMLString").Value)) ==> (ysub(v, s) <==> (istype(s, "*RawYAMLArray") && len(dyn(v, "*RawYAMLArray").Elems) == len(dyn(s, "*RawYAMLArray").Elems) && (forall j :: 0 <= j && j < len(dyn(v, "*RawYAMLArray").Elems) ==> ysub(dyn(v, "*RawYAMLArray").Elems[j], dyn(s, "*RawYAMLArray").Elems[j]))))
+//@ lemma ysub_object: forall v: RawYAMLValue, s: RawYAMLValue :: istype(v, "*RawYAMLObject") && !(istype(s, "*RawYAMLString") && hasexpr(dyn(s, "*RawYAMLString").Value)) ==> (ysub(v, s) <==> (istype(s, "*RawYAMLObject") && (forall k: string :: dyn(s, "*RawYAMLObject").Props.has(k) ==> (dyn(v, "*RawYAMLObject").Props.has(k) && ysub(dyn(v, "*RawYAMLObject").Props[k], dyn(s, "*RawYAMLObject").Props[k])))))
+
+//@ func ContainsExpression
+//@   ensures result == hasexpr(s)
+//@   trusted the text-level definition of "contains ${{ }}" is the specification of hasexpr
+
+//@ func (*RawYAMLString).Equals
+//@   props C19
+//@   anchor
+//@   uses yeq_string
+//@   ensures result == yeq(iface(s), other)
+
+//@ func (*RawYAMLArray).Equals
+//@   props C19
+//@   anchor
+//@   uses yeq_array
+//@   ensures result == yeq(iface(a), other)
+//@   loop "range a.Elems":
+//@     invariant forall j :: 0 <= j && j <= range_i ==> yeq(a.Elems[j], dyn(other, "*RawYAMLArray").Elems[j])
+
+//@ func (*RawYAMLObject).Equals
+//@   props C19
+//@   anchor
+//@   uses yeq_object
+//@   hint istype(other, "*RawYAMLObject") ==> keys_card(o.Props, dyn(other, "*RawYAMLObject").Props)
+//@   ensures result == yeq(iface(o), other)
+//@   loop "range o.Props":
+//@     invariant forall k: string :: visited(k) ==> (dyn(other, "*RawYAMLObject").Props.has(k) && yeq(o.Props[k], dyn(other, "*RawYAMLObject").Props[k]))
+
+//@ func isYAMLValueSubset
+//@   props C19
+//@   anchor
+//@   uses ysub_expr ysub_string ysub_array ysub_object
+//@   ensures result == ysub(v, sub)
+//@   loop "range sub.Props":
+//@     invariant forall k: string :: visited(k) ==> (dyn(v, "*RawYAMLObject").Props.has(k) && ysub(dyn(v, "*RawYAMLObject").Props[k], dyn(sub, "*RawYAMLObject").Props[k]))
+//@   loop "range v.Elems":
+//@     invariant forall j :: 0 <= j && j <= range_i ==> ysub(dyn(v, "*RawYAMLArray").Elems[j], dyn(sub, "*RawYAMLArray").Elems[j])
+
+// A value of a row is reported as duplicate iff it equals a value kept so far (`seen` holds the
+// earlier, pairwise different values); rows given by an expression are never reported.
+//@ func (*RuleMatrix).checkDuplicateInRow
+//@   props C19
+//@   anchor
+//@   ensures row.Values == nil ==> len(rule.errs) == old(len(rule.errs))
+//@   loop "range row.Values":
+//@     body_calls (*RuleBase).Errorf iff exists j :: 0 <= j && j < len(seen) && yeq(seen[j], v)
+//@   loop "range seen":
+//@     invariant forall j :: 0 <= j && j <= range_i ==> !yeq(seen[j], v)
+
+// An exclude entry is reported iff its key is neither ignored nor a candidate key, or no candidate
+// value of that key matches it.
+//@ func (*RuleMatrix).checkExclude
+//@   props C19
+//@   anchor
+//@   loop "range c.Assigns" #2:
+//@     body_calls (*RuleBase).Errorf iff !ignored.has(k) && (!rows.has(k) || (forall j :: 0 <= j && j < len(rows[k]) ==> !ysub(rows[k][j], a.Value)))
+//@   loop "range row" #2:
+//@     invariant forall j :: 0 <= j && j <= range_i ==> !ysub(row[j], a.Value)
